@@ -100,7 +100,22 @@ class XslGen:
         (anything else is an error in XSLT 1.0 7.1.3 / 7.3 / 7.4), so no template is called from it"""
         scope = dict(scope)
         out = []
-        if in_elem and allow_attr:
+        if in_elem and allow_attr and self.r.random() < 0.25:
+            # instructions that create NOTHING (an empty string-value is no text node, 7.6.1; an empty node-set, a false test, an empty
+            # xsl:text): the start tag of the element is still open for the xsl:attribute instructions that follow
+            empty_ns = P(ch(t_name("zz")))
+            childless = filt(P(dict(DOS), ch(T_ANY, fn("not", P(ch(T_NODE)))), abs_=True), num(1))      # an element without children: string-value ''
+            hollow = [{"i": "value-of", "sel": empty_ns}, {"i": "value-of", "sel": lit("")}, {"i": "value-of", "sel": childless},
+                      {"i": "value-of", "sel": fn("string", P(at(t_name("zz"))))}, {"i": "copy-of", "sel": empty_ns}, {"i": "copy-of", "sel": lit("")},
+                      {"i": "if", "test": fn("false"), "body": [{"i": "text", "v": cps("no")}]}, {"i": "text", "v": cps("")},
+                      {"i": "for-each", "sel": empty_ns, "sorts": [], "body": [{"i": "text", "v": cps("no")}]},
+                      {"i": "value-of", "sel": P(ch(T_COMMENT, bin_("=", P(step("self", T_NODE)), lit(""))))}]
+            for _ in range(self.r.choice([1, 1, 2])):
+                out.append(dict(self.r.choice(hollow)))
+            nh = len(out)
+            while (self.r.random() < 0.8 or len(out) == nh) and len(out) < nh + 2:
+                out.append({"i": "attribute", "name": [{"lit": True, "s": cps(self.r.choice(["p", "q", "x"]))}], "body": [{"i": "text", "v": cps("h")}]})
+        elif in_elem and allow_attr:
             while self.r.random() < 0.35 and len(out) < 2:
                 out.append({"i": "attribute", "name": [{"lit": True, "s": cps(self.r.choice(["p", "q", "x"]))}],
                             "body": (self.body(scope, 0, allow_attr=False, text_only=True) if self.r.random() < 0.6 else [{"i": "value-of", "sel": self.expr(scope, "any", d=1)}])
@@ -113,6 +128,15 @@ class XslGen:
             out.append(self.instr(scope, d))
             if out[-1]["i"] == "variable":
                 scope[out[-1]["name"]] = out[-1].pop("_type")
+        if not text_only and self.r.random() < 0.08:
+            # xsl:value-of select="." (Xalan streams the current node's string-value without making a value object) on a node whose
+            # string-value is empty - an element without children, an empty comment: no text node, the attribute after it still applies
+            cur_empty = self.r.choice([filt(P(dict(DOS), ch(T_ANY, fn("not", P(ch(T_NODE)))), abs_=True), num(1)),
+                                       P(dict(DOS), ch(T_COMMENT, bin_("=", P(step("self", T_NODE)), lit(""))), abs_=True),
+                                       P(dict(DOS), at(T_ANY, bin_("=", P(step("self", T_NODE)), lit(""))), abs_=True)])
+            out.append({"i": "for-each", "sel": cur_empty, "sorts": [], "body": [{"i": "lre", "name": cps("hv"), "attrs": [], "body": [
+                {"i": "value-of", "sel": P(step("self", T_NODE))},
+                {"i": "attribute", "name": [{"lit": True, "s": cps("x")}], "body": [{"i": "text", "v": cps("h")}]}]}]})
         return out
 
     def call_template(self, scope, allow_params=True):
